@@ -237,11 +237,14 @@ def zero_guards(prog, rep):
         # of new() that has not established 0 < size.width stores the constant 0 in remaining_y
         try:
             from mirq.origin import mk_field
-            szp = [i + 1 for i, nm_ in enumerate(names) if nm_ == "size"]
             summs = Paths(prog, inline=lambda g: prog.is_new(g)).of(nw)
-            okp = bool(summs) and bool(szp)
+            okp = bool(summs) and "width" in fidx
             for sm in summs:
-                w = ("field", ("param", szp[0], "size"), 0)
+                # the row width the stream is built with (whatever parameter carries it): the value stored in `width`
+                w = strip_refs(mk_field(strip_refs(sm.ret), fidx["width"]))
+                if w[0] == "const":
+                    okp = False
+                    continue
                 if holds(sm.facts, ("lt", ("const", 0), w)) or holds(sm.facts, ("ne", w, ("const", 0))):
                     continue
                 v = strip_refs(mk_field(strip_refs(sm.ret), fidx["remaining_y"]))
